@@ -225,6 +225,46 @@ def gen_cli(ctx):
     return out
 
 
+def cli_honours_parameters(ctx):
+    """the command line generates exactly the board of the parameters it was given: the file it writes is the file the API
+    writes for gen_rnd_board(seed, length, width, t, m, f) and the same break probabilities - also when a probability is not a
+    whole percent (the file name is percent-granular, the board and the games are not)"""
+    import ast
+    rng = ctx.rng
+    # large boards for the extreme loose-tile probabilities: 1600 tiles make a 0.004 difference in the probability visible
+    sets = [(5, 40, 40, 0.125, 4, False, 0.215, 0.125, 0.335), (9, 40, 40, 0.004, 6, True, 0.0051, 0.004, 0.996),
+            (11, 40, 40, 0.996, 2, False, 0.5049, 0.9949, 0.0049), (0, 3, 3, 0.3, 6, False, 0.1, 0.1, 0.1)]
+    for _ in range(3 if ctx.quick else 25):
+        sets.append((rng.randrange(10 ** 6), rng.randint(3, 7), rng.randint(3, 7), round(rng.uniform(0.001, 0.999), rng.choice([2, 3, 4])),
+                     rng.choice([1, 3, 6, 9]), rng.random() < 0.5, round(rng.uniform(0.001, 0.999), 4), round(rng.uniform(0.001, 0.999), 3),
+                     round(rng.uniform(0.001, 0.999), 4)))
+    jobs = []
+    for (seed, L, W, t, m, fd, ptb, prb, plb) in sets:
+        jobs.append(dict(op="gen_cli", want_text=True, limit=60,
+                         argv=["-s", str(seed), "-l", str(L), "-w", str(W), "-t", repr(t), "-m", str(m), "-r", repr(ptb), "-p", repr(prb),
+                               "-q", repr(plb)] + (["-f"] if fd else [])))
+        jobs.append(dict(op="api_text", args=enc([seed, L, W, t, m, fd, ptb, prb, plb]), limit=60))
+    res = impl.run_cases(jobs, limit=60, tag="c15cli")
+    for k, par in enumerate(sets):
+        a, b = res[2 * k], res[2 * k + 1]
+        ctx.evaluations += 1
+        ctx.count("cli-vs-api")
+        inp = dict(argv=jobs[2 * k]["argv"])
+        if "text" not in a or "text" not in b:
+            ctx.violation("accepted parameters, but the command line wrote %s and the API %s" % (a.get("files"), b.get("exc") or "a file"), inp, impl=str(a)[:300])
+            continue
+        ctx.nontrivial.add(("cli-vs-api",) + tuple(repr(x) for x in par))
+        if a["text"] != b["text"]:
+            try:
+                da, db = ast.literal_eval(a["text"]), ast.literal_eval(b["text"])
+                where = [k2 for k2 in db if da.get(k2) != db[k2]]
+            except Exception:   # noqa: BLE001
+                where = ["?"]
+            ctx.violation("the command line's file is not the one the API writes for gen_rnd_board(seed=%d, length=%d, width=%d, "
+                          "prob_loose_tile=%r, max_reward=%d, force_down=%s) with break probabilities tile %r robot %r light %r "
+                          "(differs in %s)" % (par[0], par[1], par[2], par[3], par[4], par[5], par[6], par[7], par[8], where), inp)
+
+
 # ------------------------------------------------------------------ run
 def run(ctx):
     import mt_corr
@@ -383,6 +423,8 @@ def run(ctx):
     ctx.corr_cases += len(cterms)
     for k in bad:
         ctx.corr_break("model check_input and roberta_generator.check_input disagree", cmeta[k][0], impl=cmeta[k][1])
+
+    cli_honours_parameters(ctx)
 
     # ---- the command line
     lterms, lmeta = [], []
